@@ -58,6 +58,14 @@ func main() {
 
 func contractsDir() string { return filepath.Join(verifRoot, "contracts") }
 
+// outRoot: where evidence/ and replay/ are written (HVC_OUT redirects them, used when checking scratch copies)
+func outRoot() string {
+	if o := os.Getenv("HVC_OUT"); o != "" {
+		return o
+	}
+	return verifRoot
+}
+
 func loadAll(pkgdirs map[string]bool) (*Program, *ContractSet, error) {
 	cs, err := LoadContracts(contractsDir())
 	if err != nil {
@@ -387,7 +395,7 @@ func cmdCheck(args []string) int {
 		}
 		return nil
 	}
-	os.MkdirAll(filepath.Join(verifRoot, "replay", prop), 0o755)
+	os.MkdirAll(filepath.Join(outRoot(), "replay", prop), 0o755)
 	violations := 0
 	discharged := 0
 	claimed := 0
@@ -425,7 +433,7 @@ func cmdCheck(args []string) int {
 		claimed++
 		violations++
 		failedNames = append(failedNames, r.Ob.Name)
-		path := filepath.Join(verifRoot, "replay", prop, sanitize(strings.TrimPrefix(r.Ob.Name, prop+"/"))+".json")
+		path := filepath.Join(outRoot(), "replay", prop, sanitize(strings.TrimPrefix(r.Ob.Name, prop+"/"))+".json")
 		rep := buildReplay(prog, cs, prop, r, timeout)
 		data, _ := json.MarshalIndent(rep, "", " ")
 		os.WriteFile(path, data, 0o644)
@@ -479,9 +487,9 @@ func cmdCheck(args []string) int {
 			"exhaustive":               false,
 		}}
 	addBounded(prop, *tier, seed, &ev)
-	os.MkdirAll(filepath.Join(verifRoot, "evidence"), 0o755)
+	os.MkdirAll(filepath.Join(outRoot(), "evidence"), 0o755)
 	data, _ := json.MarshalIndent(ev, "", " ")
-	os.WriteFile(filepath.Join(verifRoot, "evidence", prop+".json"), data, 0o644)
+	os.WriteFile(filepath.Join(outRoot(), "evidence", prop+".json"), data, 0o644)
 	fmt.Printf("%s: %d/%d obligations discharged, %d covers, %d known findings, %d violations (%.1fs: load %.1f, vcgen %.1f, solve %.1f cpu)\n",
 		prop, discharged, claimed, covers, len(known), ev.Violations, wall, tLoad, tGen, solverTime)
 	if ev.Violations > 0 {
